@@ -682,6 +682,12 @@ func sameLevel(i *Iter) bool {
 //@   nonnil br wg dstErr
 //@   safe
 
+// little-endian 64-bit word at b[k:k+8] (the values stream stores tape words this way)
+func le64(b []byte, k int) uint64 {
+	return uint64(b[k]) | uint64(b[k+1])<<8 | uint64(b[k+2])<<16 | uint64(b[k+3])<<24 |
+		uint64(b[k+4])<<32 | uint64(b[k+5])<<40 | uint64(b[k+6])<<48 | uint64(b[k+7])<<56
+}
+
 // Tape shape written by the rebuild loop (C17, C11): an owed NOP run of length n is written as n, n-1, .., 1 (every
 // skip lands exactly on the entry after the run), and a container opener at s with end pointer e gets its closer at
 // e-1 pointing back to s.
@@ -694,6 +700,9 @@ func sameLevel(i *Iter) bool {
 //@   invariant 2 0 <= i && i <= nSkips && nSkips <= len(dst.Tape) && 0 <= off && off <= len(dst.Tape) && off+(nSkips-i) <= len(dst.Tape)
 //@   invariant 2 [C17,C11] run: i <= off && forall(off-i, off, func(k int) bool { return dst.Tape[k] == uint64(TagNop)<<56|uint64(off+(nSkips-i)-k) })
 //@   decreases 2 nSkips - i
+//@   assertat `dst.Tape[off+1] = binary.LittleEndian.Uint64(values[8:16])` [C11,C03] flagged: dst.Tape[off] == le64(values, 0) && dst.Tape[off+1] == le64(values, 8)
+//@   assertat `dst.Tape[off+1] = binary.LittleEndian.Uint64(values[:8])` [C11,C03] number: dst.Tape[off] == uint64(t)<<56 && dst.Tape[off+1] == le64(values, 0) && (tag == TagFloat || tag == TagInteger || tag == TagUint)
+//@   assertat `dst.Tape[off+1] = sLen` [C11] stringwords: dst.Tape[off] == uint64(TagString)<<56|sOffset && dst.Tape[off+1] == sLen && tag == TagString
 //@   assertat `dst.Tape[val-1] = uint64(tagOpenToClose[tag])<<56 | uint64(off)` [C17,C11] closer: implies(val >= uint64(off)+2, payOf(dst.Tape[val-1]) < val && payOf(dst.Tape[payOf(dst.Tape[val-1])]) == val && tagOf(dst.Tape[payOf(dst.Tape[val-1])]) == tag && tagOf(dst.Tape[val-1]) == tagOpenToClose[tag])
 //@   safe
 
